@@ -452,7 +452,7 @@ func TestVerifC18(t *testing.T) {
 		"(every offset 0..len when len<=1500, thorough: when len<=16KiB). Damage reads: cut file[:o]; zero-tail file[:o]+zeros; overlay new[:o]+old[o:] for o in O(new); overlay-cut (new+old[len(new):])[:o] for o in O(old), o>len(new). "+
 		"An evaluation = one read of one damaged (or intact) file; distinct non-trivial = (case, format, damage kind) of a log with >=2 records with at least one read that returned a proper non-empty prefix (overlay-cut: at least one read, all records must come back).", win, bwin, pct))
 	r.Assume("the harness chunk parser (verifC18ParseChunks below) is used only to pick offsets and to compute the lower bound on the number of records that must survive; a parser/writer disagreement is reported as harness-parse-error, not as held")
-	n := vcommon.Scale(24, 240)
+	n := vcommon.Scale(20, 240)
 	var buf []byte
 	buf = make([]byte, 0, 1<<17)
 	r.Cases(n, func(ci int, rng *rand.Rand) {
